@@ -131,6 +131,32 @@ def check_cases(ctx, cases):
                 if pos[p] >= pos[r["id"]]:
                     ctx.fail(case, f"revision {r['id']} is yielded before its parent {p}", "child-before-parent", {"order": order})
                     break
+    # two sorts consumed in lockstep must not disturb each other (each case paired with the next;
+    # a replayed failure carries its partner as "other_log")
+    small = [(c, o) for c, o in zip(cases, impls) if o is not None and 0 < len(c["log"]) <= 200]
+    pairs = list(zip(small, small[1:]))[:150]
+    for c, o in zip(cases, impls):
+        if o is not None and c.get("other_log"):
+            c2 = {"log": c["other_log"]}
+            o2 = [int(r["id"].split(b"-")[1]) for r in toposort([{"id": idb(r["id"]), "parents": [idb(p) for p in r["parents"]]} for r in c2["log"]])]
+            pairs.append(((c, o), (c2, o2)))
+    for (c1, o1), (c2, o2) in pairs:
+        mk = lambda c: [{"id": idb(r["id"]), "parents": [idb(p) for p in r["parents"]]} for r in c["log"]]
+        try:
+            with ctx.time_limit(30):
+                g1, g2 = toposort(mk(c1)), toposort(mk(c2))
+                a, b = [], []
+                for x, y in itertools.zip_longest(g1, g2):
+                    if x is not None:
+                        a.append(int(x["id"].split(b"-")[1]))
+                    if y is not None:
+                        b.append(int(y["id"].split(b"-")[1]))
+        except Exception as e:
+            ctx.fail({"log": c1["log"], "other_log": c2["log"]}, f"two sorts consumed in lockstep: {type(e).__name__}", "interleaved-raises")
+            continue
+        ctx.count("interleaved-pairs")
+        if a != o1 or b != o2:
+            ctx.fail({"log": c1["log"], "other_log": c2["log"]}, "two sorts consumed in lockstep give other sequences than each of them alone", "interleaved-differs", {"alone": [o1[:20], o2[:20]], "lockstep": [a[:20], b[:20]]})
     res = ctx.model(reqs)
     other = []
     for case, r, order in zip(cases, res, impls):
